@@ -58,6 +58,7 @@ def _impl(tier, seed, search):
     from spatialmath.spatialvector import SpatialVelocity, SpatialAcceleration, SpatialForce, SpatialMomentum, SpatialInertia
     from spatialmath.DualQuaternion import DualQuaternion, UnitDualQuaternion
     from smv import targets, targets_cls
+    from spatialmath.smuserlist import SMUserList
     g = inputs.rng(seed)
     reps = 2 if tier == 'quick' else 12
     L = Laws('C17', rule='every traced base/class configuration (smv.targets) with float arguments, every public attribute / zero-argument method of every class '
@@ -180,7 +181,32 @@ def _impl(tier, seed, search):
                 if isinstance(static, (classmethod, staticmethod)): raise TypeError('constructor-like')
                 return m()
             nattr += 1
-            observe('receiver', f'{iname}.{attr}', access, [X], sig=f'mutates-receiver:{iname.split("[")[0]}.{attr}')
+            res_ = observe('receiver', f'{iname}.{attr}', access, [X], sig=f'mutates-receiver:{iname.split("[")[0]}.{attr}')
+            # the result must be a new object: handing back the receiver (or its backing list) lets later list operations on the result edit it
+            if res_ is not None and isinstance(res_, SMUserList) and attr not in ('copy',):
+                if res_ is X or res_.data is getattr(X, 'data', None):
+                    L.fail(f'returns-receiver:{iname.split("[")[0]}.{attr}', f'{iname}.{attr} returns its receiver (or shares its value list) instead of a new object', dict(callable=f'{iname}.{attr}'))
+    # ---- 3b. histories: an accessor's answer after documented list mutations equals the answer of a freshly built object ------
+    for cname, cls, mk in (('SO3', SO3, lambda: inputs.so3(g)), ('SE3', SE3, lambda: inputs.se3(g, 1)), ('UnitQuaternion', UnitQuaternion, lambda: inputs.unitq(g)), ('SO2', SO2, lambda: inputs.so2(g)),
+                           ('Twist3', Twist3, lambda: np.r_[g.normal(size=3), inputs.unit_axis(g)])):
+        vals_ = [mk() for _ in range(4)]
+        X = cls([vals_[0], vals_[1]])
+        attrs_ = [a_ for a_ in ('R', 'A', 'rpy', 'eul', 'angvec', 'theta', 'vec', 'S', 'v', 'w', 'SO3', 'SE3', 'inv', 'det', 'norm', 'log') if hasattr(X, a_)]
+        def read(obj, a_):
+            m_ = getattr(obj, a_); return m_() if callable(m_) else m_
+        for a_ in attrs_:
+            L.count('history', key=(cname, a_))
+            try:
+                read(X, a_)
+                X[0] = cls(vals_[2]); X.append(cls(vals_[3])); X.reverse()
+                got_ = read(X, a_)
+                Fresh = cls([vals_[3], vals_[1], vals_[2]])
+                want_ = read(Fresh, a_)
+                if not same_value(got_ if not isinstance(got_, SMUserList) else got_.data, want_ if not isinstance(want_, SMUserList) else want_.data):
+                    L.fail(f'stale:{cname}.{a_}', f'{cname}.{a_} after item assignment / append / reverse differs from the same accessor on a freshly built equal object', dict(cls=cname, accessor=a_))
+                X = cls([vals_[0], vals_[1]])
+            except Exception:
+                X = cls([vals_[0], vals_[1]])
     # ---- 4. operators: both operands unchanged; augmented operators leave the right operand unchanged ---------
     OPS = {'*': operator.mul, '/': operator.truediv, '+': operator.add, '-': operator.sub, '==': operator.eq, '!=': operator.ne, '@': operator.matmul,
            '*=': operator.imul, '/=': operator.itruediv, '+=': operator.iadd, '-=': operator.isub, '**2': lambda x, y: x ** 2, '**-1': lambda x, y: x ** -1, '^': operator.xor, '|': operator.or_}
